@@ -26,6 +26,9 @@ type Sys struct {
 	MaxDepth int
 	// MaxStates caps the search (0 = none); hitting it makes the result non-exhaustive.
 	MaxStates int
+	// Workers limits parallelism (0 = GOMAXPROCS); 1 when the system uses process-global state
+	// such as the virtual clock.
+	Workers int
 }
 
 type Viol struct {
@@ -67,6 +70,9 @@ func BFS(s *Sys) Result {
 	res.States = 1
 	frontier := [][]int{{}}
 	nw := runtime.GOMAXPROCS(0)
+	if s.Workers > 0 {
+		nw = s.Workers
+	}
 	violSeen := map[string]bool{}
 	for depth := 0; depth < s.MaxDepth && len(frontier) > 0; depth++ {
 		type found struct {
